@@ -319,3 +319,91 @@ def lambda_list_arity(ll):
         else:
             raise SexpError(f"unrecognised lambda-list item {it!r}")
     return lo, hi
+
+
+# ---------------------------------------------------------------------------------------------------------------
+# Partial evaluation of small Hy bodies on the *number of arguments*
+# ---------------------------------------------------------------------------------------------------------------
+
+class _Unknown(Exception):
+    pass
+
+
+def _arity_test(n, rest, count):
+    """Truth value of a test form when the rest-parameter `rest` holds `count` values; raises _Unknown otherwise."""
+    if n.kind == "sym":
+        if n.val == rest:
+            return count > 0
+        if n.val in ("True", "False"):
+            return n.val == "True"
+        if n.val == "None":
+            return False
+        raise _Unknown(n.src())
+    if n.kind == "num":
+        try:
+            return bool(int(n.val))
+        except ValueError:
+            raise _Unknown(n.src())
+    if n.kind == "kw" and n.val == "else":
+        return True
+    if n.kind != "expr" or not n.items:
+        raise _Unknown(n.src())
+    h = n.head()
+    a = n.items[1:]
+    if h == "not" and len(a) == 1:
+        return not _arity_test(a[0], rest, count)
+    if h == "and":
+        return all(_arity_test(x, rest, count) for x in a)
+    if h == "or":
+        return any(_arity_test(x, rest, count) for x in a)
+    if h in ("=", "!=", "<", ">", "<=", ">=") and len(a) == 2:
+        x, y = (_arity_num(v, rest, count) for v in a)
+        return {"=": x == y, "!=": x != y, "<": x < y, ">": x > y, "<=": x <= y, ">=": x >= y}[h]
+    raise _Unknown(n.src())
+
+
+def _arity_num(n, rest, count):
+    if n.kind == "num":
+        try:
+            return int(n.val)
+        except ValueError:
+            raise _Unknown(n.src())
+    if n.kind == "expr" and n.head() == "len" and len(n.items) == 2 and n.items[1].is_sym(rest):
+        return count
+    raise _Unknown(n.src())
+
+
+def value_for_count(body, rest, count):
+    """The form whose value `body` returns when the rest-parameter `rest` holds `count` values, following
+    if / cond / when / unless on tests about `rest` only.  -> Node, or None when a test cannot be decided."""
+    n = body
+    try:
+        for _ in range(40):
+            h = n.head() if n.kind == "expr" else None
+            a = n.items[1:] if h else []
+            if h == "if" and len(a) in (2, 3):
+                if _arity_test(a[0], rest, count):
+                    n = a[1]
+                elif len(a) == 3:
+                    n = a[2]
+                else:
+                    return Node("sym", "None", line=n.line)
+            elif h == "cond" and len(a) % 2 == 0:
+                for t, v in zip(a[::2], a[1::2]):
+                    if _arity_test(t, rest, count):
+                        n = v
+                        break
+                else:
+                    return Node("sym", "None", line=n.line)
+            elif h in ("when", "unless") and len(a) >= 2:
+                if _arity_test(a[0], rest, count) == (h == "when"):
+                    n = a[-1]
+                else:
+                    return Node("sym", "None", line=n.line)
+            elif h == "do" and a:
+                n = a[-1]
+            else:
+                return n
+    except _Unknown:
+        return None
+    return None
